@@ -109,6 +109,14 @@ func (s *sys) bootCore() *coreInst {
 	logrus.SetOutput(io.Discard)
 	stdlog.SetOutput(io.Discard)
 	logrus.SetLevel(logrus.PanicLevel)
+	if f := os.Getenv("HCORE_LOG"); f != "" {
+		// development aid: the core's own log of one replayed run (never set by vcheck)
+		if fh, err := os.OpenFile(f, os.O_CREATE|os.O_WRONLY|os.O_APPEND, 0o644); err == nil {
+			logrus.SetOutput(fh)
+			logrus.SetLevel(logrus.DebugLevel)
+			logrus.SetFormatter(&logrus.TextFormatter{DisableTimestamp: true, DisableColors: true})
+		}
+	}
 	logrus.StandardLogger().ExitFunc = func(code int) {
 		ci.exited = true
 		s.c.Logf("core incarnation %d called exit(%d)", inc, code)
